@@ -20,7 +20,7 @@ import time
 HERE = os.path.dirname(os.path.abspath(__file__))
 ROOT = os.path.dirname(HERE)
 sys.path.insert(0, HERE)
-from plan import PLAN, VARIANTS, CONFIGS  # noqa: E402
+from plan import PLAN, VARIANTS, CONFIGS, VARIANT_ENV  # noqa: E402
 
 HARNESS = os.path.join(ROOT, "harness")
 BIN = os.path.join(ROOT, "bin")
@@ -89,7 +89,9 @@ def build(prop, variant):
     tmp = out + ".%d" % os.getpid()
     cmd = ["go", "build"] + modflag + VARIANTS[variant] + (["-cover", "-coverpkg=github.com/emmansun/gmsm/...,verifh/cmd/..."] if COVER else []) + ["-o", tmp, "./cmd/vc/" + prop.lower()]
     t0 = time.time()
-    p = subprocess.run(cmd, cwd=HARNESS, env=goenv(), stdout=subprocess.PIPE, stderr=subprocess.STDOUT, text=True)
+    benv = goenv()
+    benv.update(VARIANT_ENV.get(variant, {}))
+    p = subprocess.run(cmd, cwd=HARNESS, env=benv, stdout=subprocess.PIPE, stderr=subprocess.STDOUT, text=True)
     if p.returncode != 0:
         log("BUILD FAILED (%s):\n%s" % (variant, p.stdout[-6000:]))
         return None
